@@ -8,13 +8,16 @@ import (
 	"flag"
 	"fmt"
 	"os"
+	"strings"
 
 	jdoc "github.com/jsightapi/jsight-schema-go-library/formats/json"
 	"github.com/jsightapi/jsight-schema-go-library/notations/jschema"
+	"github.com/jsightapi/jsight-schema-go-library/rules/enum"
 )
 
 type gapCase struct {
 	ID   int    `json:"id"`
+	Kind string `json:"kind"` // schema | enum
 	Base string `json:"base"`
 	Text string `json:"text"`
 }
@@ -34,6 +37,17 @@ func gapSchema(text string) *jschema.Schema {
 	_ = s.AddType("@k", jschema.New("@k", "\"abc\" // {regex: \"^a\"}"))
 	_ = s.AddType("@o", jschema.New("@o", "{\"z\": 1}"))
 	return s
+}
+
+// barFree: the text of a type shortcut is kept as written; the blanks around its bars are not part of its meaning.
+func barFree(a astNode) astNode {
+	if a.TT == "reference" {
+		a.V = txt(strings.NewReplacer(" ", "", "\t", "").Replace(string(a.V)))
+	}
+	for i := range a.Children {
+		a.Children[i] = barFree(a.Children[i])
+	}
+	return a
 }
 
 func init() {
@@ -56,6 +70,37 @@ func init() {
 				fatal(err)
 			}
 			n++
+			if c.Kind == "enum" {
+				vals := func(text string) (string, error) {
+					e := enum.New("@e", text)
+					if err := e.Check(); err != nil {
+						return "", err
+					}
+					vv, err := e.Values()
+					out := ""
+					for _, v := range vv {
+						if v.Value != nil {
+							out += string(v.Value) + ";"
+						}
+					}
+					return out, err
+				}
+				want, err := vals(c.Base)
+				if err != nil {
+					fatal(fmt.Sprintf("the compact enum %q is not accepted: %v", c.Base, err))
+				}
+				var got string
+				o := guard(func() error { var e error; got, e = vals(c.Text); return e })
+				evals++
+				if !o.OK {
+					mism++
+					w.Write(gapMismatch{c.Text, c.Base, fmt.Sprintf("the compact spelling is accepted, this one: %d %s%s at %d", o.Code, o.Msg, o.Panic, o.Pos)})
+				} else if got != want {
+					mism++
+					w.Write(gapMismatch{c.Text, c.Base, "values " + got + " want " + want})
+				}
+				return
+			}
 			b, ok := bases[c.Base]
 			if !ok {
 				s := gapSchema(c.Base)
@@ -63,7 +108,7 @@ func init() {
 					fatal(fmt.Sprintf("the compact spelling %q is not accepted: %v", c.Base, err))
 				}
 				a, _ := s.GetAST()
-				b = &baseInfo{ast: convAST(a)}
+				b = &baseInfo{ast: barFree(convAST(a))}
 				for _, d := range gapProbes {
 					b.verdicts = append(b.verdicts, s.Validate(jdoc.New("d", d)) == nil)
 				}
@@ -85,7 +130,7 @@ func init() {
 				bad("GetAST: " + err.Error())
 				return
 			}
-			if d := diffAST("", b.ast, convAST(a)); d != "" {
+			if d := diffAST("", b.ast, barFree(convAST(a))); d != "" {
 				bad("AST differs from the compact spelling's: " + d)
 				return
 			}
